@@ -5,6 +5,10 @@ O(o, k) == [op |-> o, n |-> k]
 Rep(x, k) == [i \in 1..k |-> x]
 \* MPMC 2x2x2: push/pop only; send/recv only; send + mixed pop/recv
 Prog_pp   == (1 :> Rep(O("push", 1), 2)) @@ (2 :> Rep(O("push", 1), 2)) @@ (3 :> Rep(O("pop", 1), 2)) @@ (4 :> Rep(O("pop", 1), 2))
+Prog_pp1  == (1 :> Rep(O("push", 1), 1)) @@ (2 :> Rep(O("push", 1), 1)) @@ (3 :> Rep(O("pop", 1), 1)) @@ (4 :> Rep(O("pop", 1), 1))
+Prog_pp21 == (1 :> Rep(O("push", 1), 2)) @@ (2 :> Rep(O("push", 1), 1)) @@ (3 :> Rep(O("pop", 1), 2)) @@ (4 :> Rep(O("pop", 1), 1))
+Prog_sr21 == (1 :> Rep(O("send", 1), 2)) @@ (2 :> Rep(O("send", 1), 1)) @@ (3 :> Rep(O("recv", 1), 2)) @@ (4 :> Rep(O("recv", 1), 1))
+Prog_b21  == (1 :> <<O("push", 2)>>) @@ (2 :> <<O("push", 1)>>) @@ (3 :> <<O("pop", 2)>>) @@ (4 :> <<O("pop", 1)>>)
 Prog_pp3  == (1 :> Rep(O("push", 1), 2)) @@ (2 :> Rep(O("push", 1), 2)) @@ (3 :> Rep(O("pop", 1), 3)) @@ (4 :> Rep(O("pop", 1), 2))
 Prog_sr   == (1 :> Rep(O("send", 1), 2)) @@ (2 :> Rep(O("send", 1), 2)) @@ (3 :> Rep(O("recv", 1), 2)) @@ (4 :> Rep(O("recv", 1), 2))
 Prog_mix  == (1 :> <<O("send", 1), O("push", 1)>>) @@ (2 :> Rep(O("send", 1), 2))
